@@ -1,0 +1,78 @@
+//go:build verif
+
+package graph
+
+import (
+	"cmp"
+	"fmt"
+	"slices"
+
+	openfgav1 "github.com/openfga/api/proto/openfga/v1"
+)
+
+// Verification hooks (build tag "verif"): compiled only into the verification harness.
+// They add nothing to the normal build and change no existing code.
+
+// VerifBuildUnweighted is Build without the final AssignWeights call.
+func (wgb *WeightedAuthorizationModelGraphBuilder) VerifBuildUnweighted(model *openfgav1.AuthorizationModel) (*WeightedAuthorizationModelGraph, error) {
+	wb := NewWeightedAuthorizationModelGraph()
+	sortedTypeDefs := make([]*openfgav1.TypeDefinition, len(model.GetTypeDefinitions()))
+	copy(sortedTypeDefs, model.GetTypeDefinitions())
+
+	slices.SortFunc(sortedTypeDefs, func(a, b *openfgav1.TypeDefinition) int {
+		return cmp.Compare(a.GetType(), b.GetType())
+	})
+
+	for _, typeDef := range sortedTypeDefs {
+		wb.GetOrAddNode(typeDef.GetType(), typeDef.GetType(), SpecificType)
+
+		sortedRelations := make([]string, 0, len(typeDef.GetRelations()))
+		for relationName := range typeDef.GetRelations() {
+			sortedRelations = append(sortedRelations, relationName)
+		}
+
+		slices.Sort(sortedRelations)
+
+		for _, relation := range sortedRelations {
+			uniqueLabel := typeDef.GetType() + "#" + relation
+			parentNode := wb.GetOrAddNode(uniqueLabel, uniqueLabel, SpecificTypeAndRelation)
+			rewrite := typeDef.GetRelations()[relation]
+
+			if err := wgb.parseRewrite(wb, parentNode, model, rewrite, typeDef, relation); err != nil {
+				return nil, err
+			}
+		}
+	}
+
+	return wb, nil
+}
+
+// VerifAssignWeightsInOrder is AssignWeights with the iteration over the node map replaced by
+// the given order of unique labels (the depth-first start order is the only schedule of the
+// weight assignment).
+func (wg *WeightedAuthorizationModelGraph) VerifAssignWeightsInOrder(order []string) error {
+	visited := make(map[string]bool)
+	ancestorPath := make([]*WeightedAuthorizationModelEdge, 0)
+	tupleCycleDependencies := make(map[string][]*WeightedAuthorizationModelEdge)
+
+	for _, node := range order {
+		if _, ok := wg.nodes[node]; !ok {
+			return fmt.Errorf("verif: unknown node %s", node)
+		}
+
+		if visited[node] {
+			continue
+		}
+
+		tupleCyles, err := wg.calculateNodeWeight(node, visited, ancestorPath, tupleCycleDependencies)
+		if err != nil {
+			return err
+		}
+
+		if len(tupleCyles) > 0 {
+			return fmt.Errorf("%w: %d tuple cycles found without resolution", ErrTupleCycle, len(tupleCyles))
+		}
+	}
+
+	return nil
+}
